@@ -6,6 +6,7 @@ package parser
 
 import (
 	"fmt"
+	"sort"
 
 	grammar "github.com/acekingke/yaccgo/Grammar"
 	item "github.com/acekingke/yaccgo/Items"
@@ -127,8 +128,8 @@ func (v *astDeclareVistor) Process(node *Node) {
 		//set other value
 		v.code = n.CodeList
 		v.union = n.Union
-		for key, id := range v.idsymtabl {
-			if id.Value == 0 {
+		for _, key := range sortedNames(v.idsymtabl) {
+			if v.idsymtabl[key].Value == 0 {
 				v.idMaxValue++
 				v.idsymtabl[key].Value = v.idMaxValue
 			}
@@ -243,7 +244,8 @@ func (w *Walker) BuildLALR1() *lalr.LALR1 {
 		//1. create symbo
 		index := 1
 		// first move the terminal symbol first
-		for _, id := range v.idsymtabl {
+		for _, key := range sortedNames(v.idsymtabl) {
+			id := v.idsymtabl[key]
 			if id.IDTyp == TERMID {
 				terminals = append(terminals, id)
 			}
@@ -349,6 +351,25 @@ func ParseAndBuild(input string) (*Walker, error) {
 		root.LALR1 = lalr
 		return w, nil
 	}
+}
+
+// sortedNames returns the keys of the identifier table in a fixed order.
+func sortedNames(tab map[string]*Idendity) []string {
+	names := make([]string, 0, len(tab))
+	for name := range tab {
+		names = append(names, name)
+	}
+	sort.Strings(names)
+	return names
+}
+
+// SortedIds returns the identifiers in a fixed order.
+func (v *RootVistor) SortedIds() []*Idendity {
+	ids := make([]*Idendity, 0, len(v.idsymtabl))
+	for _, name := range sortedNames(v.idsymtabl) {
+		ids = append(ids, v.idsymtabl[name])
+	}
+	return ids
 }
 
 func (v *RootVistor) GetIdsymtabl() map[string]*Idendity {
